@@ -53,6 +53,11 @@ def build(case):
     e = case['embed']
     inner = Application([], slash_mode=case['inner_mode'])
     inner.add(rt, inherit_slashes=e['inner_inherit'])
+    if case.get('shadow'):
+        # a second route BEHIND the first one, for the same paths (the leaf spelling of the pattern, always rewritten),
+        # admitting only methods the first one does not: whatever it answers is never a redirect
+        sh = Route(pattern.rstrip('/') or '/', lambda **kw: Response('shadow'), methods=case['shadow'], slash_mode='rewrite')
+        inner.add(sh, inherit_slashes=False)
     app = inner
     if e['depth'] >= 1:
         app = Application([SubApplication(e['prefix'], inner, inherit_slashes=e['outer_inherit'])], slash_mode=case['outer_mode'])
@@ -80,6 +85,7 @@ def impl(case):
         r = wsgi.call(app, wsgi.environ(pi, method=method, query=qs))
         rec = {'status': r.code, 'exc': type(r.exc).__name__ if r.exc else None, 'location': r.header('Location'),
                'matched': br.match_path('/' + path.lstrip('/')) is not None,
+               'matched_canonical': br.match_path(norm('/' + path.lstrip('/'), br.pattern.endswith('/'))) is not None,
                'kw': sorted((k, canon_val(v)) for k, v in got.get('kw', {}).items()) if 'kw' in got else None}
         if rec['location'] and r.code in (301, 302, 303, 307, 308):
             u = urlsplit(rec['location'])
@@ -120,6 +126,11 @@ def oracle(case, obs):
             return ('%s: %s escaped to the WSGI server' % (what, o['exc']), 'escape')
         seen = '/' + path.lstrip('/')
         canonical = norm(seen) == seen
+        if eff != 'strict' and case['kind'] != 'multi' and o.get('matched_canonical') and not o['matched'] and \
+                norm(seen, branch).rstrip('/') == norm(seen).rstrip('/'):
+            # (a slash run inside the span of a multi binding is the known finding F3 of C05 and is left out here)
+            return ('%s: the route serves the canonical path %r but does not recognise this spelling of it' % (what, norm(seen, branch)),
+                    'spelling-not-recognised')
         redirected = o['status'] in (301, 302, 303, 307, 308) and o['location'] is not None
         should = eff == 'redirect' and branch and o['matched'] and admitted(case, method) and not canonical
         if redirected and not should:
@@ -181,6 +192,14 @@ def gen_case(rng, tier):
             path = '/'
         reqs.append([rng.choice(METHODS), path, rng.choice(QUERIES)])
     case['requests'] = reqs
+    if case['methods'] and pattern != '/' and rng.random() < 0.6:
+        # two routes for one path with different method sets, a method neither admits early in the history
+        case['shadow'] = ['POST', 'DELETE'] if 'POST' not in case['methods'] else ['GET', 'DELETE']
+        first = list(lits)
+        if kind in ('single', 'multi'):
+            first.append('5')
+        p0 = '/' + '/'.join(first)
+        case['requests'] = [['PATCH', p0, ''], ['PATCH', p0 + '/', 'q=1']] + reqs
     return case
 
 
@@ -202,7 +221,7 @@ def run(rep, b, tier, seed, only_cases=None):
     corpus = [c['case'] if 'case' in c else c for c in core.load_corpus('C07')]
     cases = list(only_cases) if only_cases is not None else corpus + [gen_case(rng, tier) for _ in range(600 if tier == 'quick' else 6000)]
     rep.rule = ('redirectlab: %d route shapes (branch/leaf x static/single/multi/optional/int bindings, root) x method sets x '
-                'route-level, application-level and embedding-application slash modes x inherit_slashes on/off at both levels x '
+                'route-level, application-level and embedding-application slash modes x an optional second route behind it for the same paths with the complementary method set (histories start with a method neither admits) x inherit_slashes on/off at both levels x '
                 'prefixes; request paths assembled from %d segments incl. URL-significant characters with 1-3 slashes between and '
                 '0-2 at the end; %d query strings incl. malformed escapes, raw non-UTF-8 bytes and every delimiter; %d methods; every '
                 'Location is followed by a second raw request and compared with a direct request to the canonical path; the Location '
